@@ -27,6 +27,9 @@
 (*   mcnk-ofs:<f>     MCNK header ofs_f # 0 => sub-chunk header with the   *)
 (*                    named tag at that offset from the MCNK header;       *)
 (*                    sub-chunk present => ofs_f # 0                       *)
+(*   mcnk-size:<f>    sizeAlpha/sizeShadow = payload size of MCAL/MCSH,     *)
+(*                    sizeLiquid = MCLQ size + 8, nLayers = |MCLY|/16,     *)
+(*                    nSnd = |MCSE|/28, no sub-chunk => 0                  *)
 (*   vrule            the file carries only chunks its version may carry   *)
 (*  round trip                                                             *)
 (*   serialize:<res> parse:<res> parse-kind rebuild:<res> build:panic      *)
@@ -95,15 +98,17 @@ LayoutFails(fo, ver) ==
               IF McnkFields[q][1] \notin McnkOfsNames THEN << >>
               ELSE Chk(\A gi \in 1..Len(fo.groups) : OfsPoints(fo.groups[gi], McnkFields[q][1]) /\ OfsComplete(fo.groups[gi], McnkFields[q][1]),
                        "mcnk-ofs:" \o McnkFields[q][1])])
+    \o Cat([q \in 1..Len(McnkFields) |->
+              IF McnkFields[q][1] \notin McnkSizeNames THEN << >>
+              ELSE Chk(\A gi \in 1..Len(fo.groups) : SizeFieldOk(fo.groups[gi], McnkFields[q][1]), "mcnk-size:" \o McnkFields[q][1])])
     \o Chk(VersionRule(fo, ver), "vrule")
 LayoutDrift(fo, ver) ==
     Chk(\A gi \in 1..Len(fo.groups) : ~HasTag(fo.groups[gi].subs, "#00000000"), "mcnk-header-136-bytes")
     \o Chk(fo.mhdrData < 0 \/ MhdrFlagsOk(fo), "mhdr-flags")
     \o Chk(Detect({fo.top[j].tag : j \in 1..Len(fo.top)}) = ver, "version-not-detectable")
-    \o Chk(\A gi \in 1..Len(fo.groups) : LET g == fo.groups[gi] IN
-              /\ (g.f["alpha"] # 0 => g.f["sizeAlpha"] = SizeAt(g.subs, g.f["alpha"]))
-              /\ (g.f["shadow"] # 0 => g.f["sizeShadow"] = SizeAt(g.subs, g.f["shadow"]))
-              /\ (g.f["liquid"] # 0 => g.f["sizeLiquid"] = SizeAt(g.subs, g.f["liquid"])), "mcnk-size-fields")
+    \o Chk(\A gi \in 1..Len(fo.groups) : RefCountsOk(fo.groups[gi]), "mcnk-ref-counts-vs-mcrf-size")
+    \o Chk(\A gi \in 1..Len(fo.groups) : GridIndexOk(fo.groups[gi]), "mcnk-index-not-grid-position")
+    \o Chk(fo.mhdrData < 0 \/ ((fo.mhdr["flags"] \div 2) % 2 = 1) = HasTag(fo.top, "MH2O"), "mhdr-flag-bit1-vs-mh2o")
 
 \* ---------------------------------------------------------------- Parse: content tokens
 TokFails(e) ==
